@@ -24,14 +24,11 @@ PID = "C05"
 MODES_FULL = [(0, 0), (1, 0), (1, 1), (1, 2), (1, 3), (1, 8), (1, 127), (1, 128), (1, 255), (2, 0)]
 MODES_SMALL = [(0, 0), (1, 2), (2, 0)]
 
-# pending finding (confirmed on the current tree, patch in DEFECTS.md, not yet applied): keyed by the exact shape
-PENDING = {
-    "binary-later-text": "text of a binary-flagged element that is not the element's first child is written raw instead of base64 "
-                         "(current_tag is reset after the first child); the XML is not well-formed when the octets are not XML characters",
-}
+# pending findings (confirmed on the current tree, patch proposed, not yet applied), keyed by the exact shape: none at present
+PENDING = {}
 
 # findings repaired in /repo (3c772f6 D8 tree builder, 0de0008 D9 CDATA split, 32930ca D28/D29 xmlns around literal
-# elements): their shapes are ordinary violations now.  `shapes` is kept for the evidence (how often the
+# elements, 093ad9f D32 binary-later-text): their shapes are ordinary violations now.  `shapes` is kept for the evidence (how often the
 # generators reach these shapes).
 
 
